@@ -326,6 +326,12 @@ def mode_build():
             # (1) the transform applied to a QNode (expand transform, Sum splitting, execution, post-processing)
             qn = qp.QNode(lambda: [qp.apply(o) for o in full.operations] and qp.apply(full.measurements[0]), dev)
             case["pipeline"] = float(qp.cut_circuit(qn)())
+            if ci % 3 == 0:
+                try:
+                    import opt_einsum  # noqa
+                    case["pipeline_opt"] = float(qp.cut_circuit(qn, use_opt_einsum=True)())
+                except ImportError:
+                    pass
             case["dq_uncut"] = float(qp.execute([qp.tape.QuantumScript(nocut, full.measurements)], dev)[0])
             # (2) per Pauli word: raw transform, structure, default.qubit + implementation post-processing, dyadic case
             case["t"] = []
@@ -395,6 +401,14 @@ def mode_build():
             import traceback
             a["status"], a["detail"] = "error", f"{type(e).__name__}: {str(e)[:300]} | " + traceback.format_exc()[-600:]
     mcs = []
+    if req.get("nmc", 0):
+        # designed case: GHZ state cut on the middle wire, <Z0 Z2> = +1 exactly; needs the terminal sample of wire 0
+        # and the mid-circuit sample of wire 1 (same single-shot tape) to come from ONE joint shot
+        gops = [["Hadamard", [], [0]], ["CNOT", [], [0, 1]], ["WireCut", [], [1]], ["CNOT", [], [1, 2]]]
+        g = {"n": 3, "ops": gops, "swires": [0, 2], "zwires": [0, 2], "cuts": 1, "shots": 2500 if tier == "quick" else 8000,
+             "seed": 3999, "designed": True}
+        g["uncut"] = tape_desc(qp.tape.QuantumScript([mk_op(d) for d in gops if d[0] != "WireCut"], []), circ_cache)
+        mcs.append(g)
     for mi in range(req.get("nmc", 0)):
         n = 3
         while True:
@@ -473,7 +487,22 @@ def mode_post():
         tapes, fn = SESS[(item["ci"], item["ti"])]
         r = fn(nest(item["results"], tapes))
         out.append({"status": "ok", "value": float(r)})
-    print(json.dumps({"out": out, "mc": mode_mc()}), flush=True)
+    print(json.dumps({"out": out, "mc": mode_mc(), "joint_probe": joint_probe() if req.get("mc") else None}), flush=True)
+
+
+def joint_probe():
+    """cut_circuit_mc executes single-shot tapes measuring sample(Projector([1])) on terminal wires together with
+    sample(Pauli) on cut wires and needs ONE joint shot per tape.  Bell state: (bit0, Z1) in {(0,+1), (1,-1)} only."""
+    dev = qp.device("default.qubit", wires=2, seed=11)
+    t = qp.tape.QuantumScript([qp.Hadamard(0), qp.CNOT([0, 1])],
+                              [qp.sample(qp.Projector([1], wires=0)), qp.sample(qp.Z(1))], shots=1)
+    res = qp.execute([t] * 300, dev)
+    bad = sum((int(np.ravel(r[0])[0]), int(np.ravel(r[1])[0])) in ((0, -1), (1, 1)) for r in res)
+    t2 = qp.tape.QuantumScript([qp.Hadamard(0), qp.CNOT([0, 1])],
+                               [qp.sample(qp.Projector([1], wires=0)), qp.sample(qp.Projector([1], wires=1))], shots=1)
+    res2 = qp.execute([t2] * 300, dev)
+    bad2 = sum(int(np.ravel(r[0])[0]) != int(np.ravel(r[1])[0]) for r in res2)
+    return {"tapes": 300, "impossible_projector_pauli": bad, "impossible_projector_projector": bad2}
 
 
 def mode_mc():
